@@ -927,6 +927,10 @@ RULE = ("histories: a base particle list of 0..200 rows (key fields tomo_id/obje
         "the class methods (intersection, both merges) are called on each of these classes (42% not the plain Motl); every class but Motl re-loads the frame it is given "
         "(missing values filled, row labels reset), so the REAL table after construction is the table the history is judged from. H3: the base frame carries shifted or "
         "duplicated row labels in 16% of the cases. An op that would grow the table beyond 400 rows is not taken (len(values) == len(rows) only for <= 24 rows). "
+        "Round 6 -- 'after ANY sequence of operations' includes using a merge's INPUTS again: 25% of the merges only look at the result and go on with the same "
+        "list (itself an input; judged like split(keep)), often followed by a subset / remove by object number on it; after 40% of the merges with a Motl-instance input "
+        "(and in 20% of the other intersections once such an object exists) that very object is the second list of an intersection by object number; every later step "
+        "is judged against the ORIGINAL tables of the re-used lists, and a caller-owned argument found edited (corr) no longer ends the judging. "
         "Five streams: plain (56%); nan-decision (7%): NaN in a DECISION column (score / geom2 / subtomo_mean) used by drop_duplicates -- a row without a value is "
         "never the best one (pandas sorts missing values last); nan-key (12%): NaN in ONE key field (tomo_id / object_id / subtomo_id / class / geom1) which is then used as the "
         "feature of split / subset / remove (NaN also among the requested values) or by renumber_objects_sequentially -- where the real code then "
@@ -1121,6 +1125,8 @@ def py_step(rows, op):
         return [list(fz(r)) for r in rows if b2f(fz(r)[IDX[op["f"]]]) in ids]
     if k == "dropdup":
         return py_dropdup(rows, op["dup"], op["dec"], op["asc"])
+    if k in ("merge_renumber", "merge_dropdup") and op.get("keep") and not op.get("_result"):
+        return [list(r) for r in rows]          # the result is only looked at; the history goes on with the same list
     if k == "merge_renumber":
         m = py_merge(inputs_of(op, rows))
         return [setf(r, "subtomo_id", float(i + 1)) for i, r in enumerate(m)]
@@ -1273,6 +1279,12 @@ def _gen_op(rng, cur, doms, id_pool, tier, ctx):
     if kind == "intersect":
         f = rng.choice(["subtomo_id", "subtomo_id", "subtomo_id", "subtomo_id", "tomo_id", "object_id", "class"] + pref)
         reuse = [x for x in ctx["pool"] if x["kind"] == "other"]
+        merged = [x for x in ctx["pool"] if x["kind"] == "input" and not x["df"] and x["rows"]]
+        if merged and rng.random() < 0.2:
+            # round 6: the second list IS an object that an earlier merge was given as input
+            x = rng.choice(merged)
+            f = rng.choice(["object_id", "object_id", f])
+            return dict(op="intersect", f=f, other=x["rows"], oid=x["oid"], okey="input", omit_f=False, twice=twice, cls=_pick_cls(rng))
         if reuse and rng.random() < 0.25:
             x = rng.choice(reuse)
             other, oid = x["rows"], x["oid"]
@@ -1315,6 +1327,10 @@ def _gen_op(rng, cur, doms, id_pool, tier, ctx):
         keyed = [r for df, rows in [(x["df"], x["rows"]) for x in op["before"] + op["after"]] + [(self_df, cur)] if not df for r in rows]
         if not any(r[IDX[f]] == NANB for r in keyed for f in ("object_id", "subtomo_id", "score")):
             op["cls"] = _pick_cls(rng)
+        # round 6: in a quarter of the merges the result is only looked at and the history goes on with the SAME list, which was
+        # one of the inputs (judged like a split(keep): against the table before the call)
+        if rng.random() < 0.25:
+            op["keep"] = True
         return op
     if kind == "renumber_particles":
         return dict(op=kind)
@@ -1426,6 +1442,19 @@ def gen_case(rng, tier):
             continue
         if op["op"] in ("remove", "dropdup", "renumber_particles", "renumber_objects") and rng.random() < 0.1:
             push(dict(op))      # the same in-place operation once more on the same instance
+        if op["op"] in ("merge_renumber", "merge_dropdup"):
+            # round 6 (seed load-shallow-copy-aliases-input): "after any sequence of operations" -- the lists a merge was GIVEN are
+            # used again, and the later step is judged against their ORIGINAL tables: the intersection with an input object, a
+            # selection by object number on the list that was itself an input
+            ins = [x for x in op["before"] + op["after"] if not x["df"] and x["rows"] and x.get("oid")]
+            if ins and rng.random() < 0.4:
+                x = rng.choice(ins)
+                push(dict(op="intersect", f="object_id", other=x["rows"], oid=x["oid"], okey="input", omit_f=False, twice=False, cls=_pick_cls(rng)))
+            elif op.get("keep") and not op["self_df"] and cur and rng.random() < 0.6:
+                vk, vs = _values(rng, cur, "object_id", doms)
+                lead = rng.choice(["subset", "remove"])
+                vk = "list" if (lead == "remove" and vk == "tuple") else vk
+                push(dict(op=lead, f="object_id", vs=vs, vkind=vk, omit_f=False, ret_df=False, reset="omit", twice=False, kw=False))
     case = dict(base=base, cols=cols, ops=ops, stream=stream)
     if cls0 != "Motl":
         case["cls0"] = cls0
@@ -1480,6 +1509,8 @@ def shrink(case):
             yield _rep(case, k, dict(op, vs=op["vs"][1:]))
         if op.get("twice"):
             yield _rep(case, k, dict(op, twice=False))
+        if op.get("okey") == "input" and not any(x.get("oid") == op.get("oid") for o in ops for x in o.get("before", []) + o.get("after", [])):
+            yield _rep(case, k, {a: b for a, b in op.items() if a != "okey"})
         if op.get("ret_df") or op.get("reset") not in (None, "omit"):
             yield _rep(case, k, dict(op, ret_df=False, reset="omit"))
     # NaN holes -> plain numbers (payload fields only; a NaN key is the point of a nan-key case)
@@ -1650,7 +1681,8 @@ def run_impl(case):
                     if not op.get("keep"):
                         new_m = parts[op["pick"]] if op["pick"] < len(parts) else Motl(_frame([]))
                 elif kind == "intersect":
-                    other = operand(op["other"], False, op.get("oid"), "other")
+                    # okey == "input": the very object an earlier merge was given as input (same label -> same Python object)
+                    other = operand(op["other"], False, op.get("oid"), op.get("okey", "other"))
                     owned = [("motl1", m), ("motl2", other)]
                     before = [_snap(o) for _, o in owned]
                     K = klass(op.get("cls"))
@@ -1683,7 +1715,10 @@ def run_impl(case):
                             rec["first"] = _table(res.df)["rows"]
                     if len(lst) != nlist:
                         rec.setdefault("mutated", []).append("motl_list (length)")
-                    new_m = res
+                    if op.get("keep"):      # the result is only looked at; the caller goes on with the list it passed in
+                        rec["side"] = dict(_table(res.df), type=type(res).__name__)
+                    else:
+                        new_m = res
                 elif kind == "renumber_particles":
                     before = []
                     m.renumber_particles()
@@ -1752,7 +1787,7 @@ def _offset_hints(op, prev, cur):
     doc = py_merge_offsets(ins)
     seen = list(doc)
     cnt = Counter(_mask(fz(r), ["object_id"]) for df, rows in ins for r in rows)
-    outidx = {}
+    outidx, found = {}, set()
     for c in cur:
         outidx.setdefault(_mask(fz(c), ["object_id"]), c)
     for i, (df, rows) in enumerate(ins):
@@ -1761,8 +1796,25 @@ def _offset_hints(op, prev, cur):
             if cnt[key] == 1 and key in outidx:
                 d = val(outidx[key], "object_id") - val(fz(r) if df else r, "object_id")
                 if not _nan(d):
-                    seen[i] = d; break
-    hints = [seen] if seen == doc else [seen, doc]
+                    seen[i] = d; found.add(i); break
+    # an input of which no row can be recognised in the output (all its rows dropped as duplicates) may sit anywhere that collides
+    # with nothing: the clause only says that SOME offsets exist, so a third candidate puts every such input beyond all numbers in
+    # sight (without it a correct output whose recognisable inputs are not at the documented offsets had no certificate: round 6)
+    free = list(seen)
+    top = [abs(val(c, "object_id")) for c in cur if not _nan(val(c, "object_id"))]
+    top += [abs(val(fz(r) if df else r, "object_id")) + abs(seen[i]) for i, (df, rows) in enumerate(ins) for r in rows
+            if not _nan(val(fz(r) if df else r, "object_id")) and not _nan(seen[i])]
+    ceil_ = math.floor(max(top, default=0.0)) + 1.0
+    for i, (df, rows) in enumerate(ins):
+        objs = [val(fz(r) if df else r, "object_id") for r in rows]
+        objs = [o for o in objs if not _nan(o)]
+        if i not in found and objs:
+            free[i] = ceil_ - min(objs)
+            ceil_ = math.floor(max(objs) + free[i]) + 1.0
+    hints = []
+    for h in (seen, free, doc):
+        if h not in hints:
+            hints.append(h)
     return [[fb(x) for x in h] for h in hints]
 
 
@@ -1779,6 +1831,17 @@ def _start(case, obs):
     return case["base"]
 
 
+def _is_side(op):
+    """a call whose result is only looked at while the history continues with the SAME instance: a split (its parts), or a merge
+    whose inputs -- the current list among them -- go on being used (round 6: a merge must leave its inputs alone)"""
+    return bool(op.get("keep")) and op["op"] in ("split", "merge_renumber", "merge_dropdup")
+
+
+def _side_table(op, st):
+    """the table a side call returned (for a merge; a split returns parts)"""
+    return st.get("side") if op["op"] != "split" else None
+
+
 def _plan(case, obs):
     """splits the observed history into the MAIN chain (operations after which the history continues with the returned
     table) and SIDE checks (a split whose parts are only looked at: the same instance continues unchanged, G2).
@@ -1789,15 +1852,16 @@ def _plan(case, obs):
     for k, (op, st) in enumerate(zip(case["ops"], obs.get("steps", []))):
         if "error" in st:
             stop = k; break
-        tabs = [st] + (st.get("parts") or [])
+        tabs = [st] + (st.get("parts") or []) + ([st["side"]] if st.get("side") else [])
         good = all(_schema_ok(t) and not t.get("text") for t in tabs)
-        if op["op"] == "split" and op.get("keep"):
+        if _is_side(op):
             sides.append((k, op, st, prev))
         else:
             chain.append((k, op, st))
         if not good:
             stop = k; break
-        prev = st["rows"]
+        if not _is_side(op):
+            prev = st["rows"]       # after a side call the list is, by the statement, what it was: later steps are judged against THAT
     return chain, sides, stop
 
 
@@ -1816,7 +1880,7 @@ def requests(case, obs):
     """[0] the model's trace of the main chain, [1] the Lean verified checkers on the REAL outputs of the main chain,
     then per side split: [2+2i] the model's parts, [3+2i] the checkers on the real parts (base = the REAL table before it)"""
     chain, sides, _ = _plan(case, obs)
-    ops = [op for op in case["ops"] if not (op["op"] == "split" and op.get("keep"))]
+    ops = [op for op in case["ops"] if not _is_side(op)]
     base = _start(case, obs)
     reqs = [dict(op="history", base=base, ops=[_wire_op(o) for o in ops])]
     prev, recs = base, []
@@ -1824,6 +1888,11 @@ def requests(case, obs):
         recs.append(_obs_rec(op, st, prev)); prev = st["rows"]
     reqs.append(dict(op="check", base=base, ops=[_wire_op(op) for _, op, _ in chain], obs=recs))
     for k, op, st, before in sides:
+        if op["op"] != "split":     # a merge whose result is only looked at: [model's merge of the REAL inputs, checkers on the real result]
+            sd = st.get("side") or dict(cols=[], rows=[])
+            reqs.append(dict(op="history", base=before, ops=[_wire_op(op)]))
+            reqs.append(dict(op="check", base=before, ops=[_wire_op(op)], obs=[_obs_rec(op, dict(cols=sd["cols"], rows=sd["rows"], text=sd.get("text")), before)]))
+            continue
         w = dict(_wire_op(op), pick=0)
         parts = st.get("parts") or []
         side = dict(_obs_rec(op, st, before))
@@ -1999,9 +2068,32 @@ def _object_clauses(ins, cur, by_position):
 RESETTING = ("intersect", "dropdup", "merge_renumber", "merge_dropdup", "renumber_objects")
 
 
+def _side_merge_findings(k, op, st, prev, verdict, model):
+    """a merge whose result is only looked at: the result is judged by the Lean checker against the REAL table before the call
+    and the other inputs as they were HANDED OVER"""
+    name = op["op"]
+    res = (st.get("side") or {}).get("rows", [])
+    fs = clauses(op, prev, res, None)
+    failed = list(dict.fromkeys(verdict.get("failed") or ([] if verdict.get("ok") else ["checker-rejected"])))
+    if failed:
+        pyd = dict(fs)
+        return [dict(kind="spec", clause=c, step=k, detail=f"op {k} {name}(keep): Lean checker rejects the real result: " + pyd.get(c, "; ".join(d for _, d in fs) or f"{len(res)} rows out")) for c in failed]
+    if fs:
+        return [dict(kind="corr", clause="checker-vs-python-evaluator", step=k, detail=f"op {k} {name}(keep): the Lean checker accepts the real result but the Python evaluator reports {c}: {d}") for c, d in fs]
+    nan_key = any(has_nan(rows, f) for df, rows in inputs_of(op, prev) if not df for f in ("score", "subtomo_id", "object_id"))
+    want = op.get("cls", "Motl")
+    if (st.get("side") or {}).get("type") != want:
+        return [dict(kind="corr", clause="returned-class", step=k, detail=f"op {k} {name}(keep): returned {(st.get('side') or {}).get('type')}, documented {want}")]
+    if not nan_key and isinstance(model, dict) and model.get("states") and model["states"][0] != res:
+        return [dict(kind="corr", clause=f"{name}-vs-model", step=k, detail=f"op {k} {name}(keep): the result differs from the model's ({len(res)} vs {len(model['states'][0])} rows)")]
+    return []
+
+
 def _side_findings(k, op, st, prev, verdict, model):
     """a split whose parts are only looked at (G2: the same instance continues): the parts are judged by the Lean checker
     against the REAL table before the call"""
+    if op["op"] != "split":
+        return _side_merge_findings(k, op, st, prev, verdict, model)
     name = "split"
     parts = [p["rows"] for p in st.get("parts", [])]
     fs = clauses(op, prev, st["rows"], parts)
@@ -2066,8 +2158,8 @@ def _judge(case, obs, resps):
             etype = st["error"].split(":")[0]
             return done([dict(kind="spec", clause=f"{name}-raises", step=k, detail=f"op {k} {name} on a {cur_type}" + (f" (class method of {op['cls']})" if op.get("cls") else "")
                               + f": {st['error']} @{st.get('where','')} [{etype}]")])
-        tabs = [st] + (st.get("parts") or [])
-        txt = [x for t in tabs for x in t.get("text", [])]
+        tabs = [st] + (st.get("parts") or []) + ([st["side"]] if st.get("side") else [])
+        txt = [x for t in tabs for x in (t.get("text") or [])]
         if txt:                      # G3: a numeric field came back as text (the statement is silent about representations: corr)
             return done([dict(kind="corr", clause="field-not-numeric", step=k, detail=f"op {k} {name}: text in numeric field(s): {txt[:4]}; dtypes {st.get('dtypes')}")])
         is_side = k in side_of
@@ -2088,9 +2180,12 @@ def _judge(case, obs, resps):
             return done([dict(kind="corr", clause="checker-vs-python-evaluator", step=k, detail=f"op {k} {name}: the Lean schema check accepted column names {st['cols']}")])
         if not verdict.get("agree", True):
             corr = corr or [dict(kind="corr", clause="checker-instances-disagree", step=k, detail=f"op {k} {name}: the checkers at Cell (proved instance) and at Float (IEEE) give different verdicts although no key cell is missing")]
-        if st.get("mutated"):        # G2: the call edited something the caller owns (the statement is silent about arguments: corr)
-            return done([dict(kind="corr", clause="caller-input-mutated", step=k, detail=f"op {k} {name}: after the call the caller's {st['mutated']} differ(s) from before the call "
-                              "(the operation returns a new list; its arguments are not part of the result)")])
+        if st.get("mutated"):
+            # G2: the call edited something the caller owns. The statement is silent about arguments as such (corr), but "after any
+            # sequence of operations" the edited list is used again by later steps, which are judged against its ORIGINAL table:
+            # the judging goes on, and a later wrong result is the spec finding (round 6)
+            corr = corr or [dict(kind="corr", clause="caller-input-mutated", step=k, detail=f"op {k} {name}: after the call the caller's {st['mutated']} differ(s) from before the call "
+                                 "(the operation returns a new list; its arguments are not part of the result)")]
         cur = st["rows"]
         if is_side:
             smodel = resps[side_of[k][0]] if len(resps) > side_of[k][0] else {}
@@ -2102,8 +2197,8 @@ def _judge(case, obs, resps):
                     return done(fs)
             else:
                 corr = corr or fs       # a side split is compared with the model run from the REAL table before it
-            if cur != prev:
-                return done([dict(kind="corr", clause="caller-input-mutated", step=k, detail=f"op {k} split: the list itself changed although split_by_feature only returns parts")])
+            if cur != prev:     # prev stays the table before the call: that is what the list is by the statement
+                corr = corr or [dict(kind="corr", clause="caller-input-mutated", step=k, detail=f"op {k} {name}: the list itself changed although the call only returns {'parts' if name == 'split' else 'a new list'}")]
             continue
         parts = [p["rows"] for p in st["parts"]] if "parts" in st else None
         try:
@@ -2188,8 +2283,13 @@ def _judge(case, obs, resps):
 
 
 def _real_before(case, obs, k):
+    """the table step k is judged against: the start table, then the table after the last step before k that was not a side call"""
     steps = obs.get("steps", [])
-    return _start(case, obs) if k == 0 else steps[k - 1].get("rows")
+    prev = _start(case, obs)
+    for j in range(min(k, len(steps), len(case["ops"]))):
+        if not _is_side(case["ops"][j]):
+            prev = steps[j].get("rows")
+    return prev
 
 
 def judge(case, obs, resps):
@@ -2245,13 +2345,14 @@ def _known_class(case, obs, finding):
             ins = inputs_of(op, prev)
             nan_obj = any((not df) and has_nan(rows, "object_id") for df, rows in ins)
             nan_id = any((not df) and has_nan(rows, "subtomo_id") for df, rows in ins)
-            sim = py_step(prev, op)
-            if st["rows"] == sim and not refills(op):
+            sim = py_step(prev, dict(op, _result=True))
+            got = (st.get("side") or {}).get("rows") if op.get("keep") else st["rows"]
+            if got == sim and not refills(op):
                 # K3: an actual collision / lost grouping (the checkers accept a merge whose numbers do not collide)
                 if nan_obj and clause in ("merge-object-numbers-never-collide", "merge-keeps-each-inputs-grouping", "merge-dropdup-no-certificate"):
                     return "C08-K3"
                 merged_ids = [r for df, rows in ins if not df for r in rows]
-                if name == "merge_dropdup" and nan_id and nmiss(merged_ids, "subtomo_id") >= 2 and nmiss(st["rows"], "subtomo_id") == 1 \
+                if name == "merge_dropdup" and nan_id and nmiss(merged_ids, "subtomo_id") >= 2 and nmiss(got, "subtomo_id") == 1 \
                         and clause in ("dropdup-every-id-survives", "merge-dropdup-no-certificate"):
                     return "C08-K2"
     except Exception:
@@ -2293,8 +2394,10 @@ def stats(case, obs, resps):
             branch.append("column-order-after:" + ("input's" if st.get("cols") == case.get("cols") else "other"))
         if op.get("twice"):
             branch.append(f"{k}:G2-called-twice-on-the-same-objects")
-        if k == "split" and op.get("keep"):
-            branch.append("split:G2-same-instance-continues")
+        if _is_side(op):
+            branch.append(f"{k}:G2-same-instance-continues")
+        if op.get("okey") == "input":
+            branch.append("intersect:second-list-is-an-object-merged-earlier")
         for x in ([op] if "oid" in op else []) + op.get("before", []) + op.get("after", []):
             if x.get("oid"):
                 if x["oid"] in pool_seen:
@@ -2351,17 +2454,18 @@ def stats(case, obs, resps):
                 branch.append(f"{k}:has-dataframe-input")
             if sum(1 for c in py_merge_offsets(ins)[:-1] if c != 0) and len([1 for _, rows in ins if rows]) >= 3:
                 branch.append(f"{k}:3+-inputs-with-an-earlier-one-shifted")
-        prev = cur
+        if not _is_side(op):
+            prev = cur
     d["branch"] = branch
     d["final_rows"] = _bucket(len(prev))
     chk = resps[1] if len(resps) > 1 and isinstance(resps[1], dict) else {}
-    chain_ops = [op for op in case["ops"] if not (op["op"] == "split" and op.get("keep"))]
+    chain_ops = [op for op in case["ops"] if not _is_side(op)]
     d["lean_checker"] = [f"{op['op']}:{'accepted' if v.get('ok') and v.get('schema') else 'rejected:' + ','.join(v.get('failed') or ['schema'])}"
                          for op, v in zip(chain_ops, chk.get("verdicts", []))] or ["no-verdict"]
     for r in resps[3::2]:
         for v in (r.get("verdicts", []) if isinstance(r, dict) else []):
             bad = [c for c in (v.get("failed") or []) if c != "split-pick"]
-            d["lean_checker"].append("split(keep):" + ("accepted" if not bad and v.get("schema") else "rejected:" + ",".join(bad or ["schema"])))
+            d["lean_checker"].append("side(keep):" + ("accepted" if not bad and v.get("schema") else "rejected:" + ",".join(bad or ["schema"])))
     d["lean_checker_history"] = "accepted (check_history_rows applies)" if chk.get("run_ok") else "not accepted"
     return d
 
